@@ -58,14 +58,21 @@ static void prop(Tape &t, Ctx &c) {
     uint64_t r1 = t.u32(), r2 = t.u32();
     size_t chunk = t.chance(1, 3) ? 1 + t.below(7) : (size_t) -1;
     std::string sd; for (int s : steps) { sd += st_name[s]; sd += ","; }
-    std::string desc = fmt("victim=%s %s %s%s %s ev=%s(%u) steps=[%s] chunk=%zd", vclient ? "client" : "server", ver_name(ver), su.name, cauth ? "+cauth" : "",
+    std::string desc = fmt("victim=%s %s %s%s %s ev=%s(%u) steps=[%s] chunk=%zd (tls1.3 cases may be early-data capable)", vclient ? "client" : "server", ver_name(ver), su.name, cauth ? "+cauth" : "",
                            established ? "established" : fmt("k=%u", k).c_str(), ev_name[ev], adesc, sd.c_str(), (ssize_t) chunk);
     c.sample(desc); if (c.verbose) fprintf(stderr, "case: %s\n", desc.c_str());
     vfh_entropy_reset(77 + (uint32_t) r1 % 1000); vfh_clock_set_ms(1000000);
 
-    Pair p; Config cc, sc; cc.client = true; sc.client = false; cc.versions = sc.versions = { ver }; cc.suites = { su.id }; cc.auth = sc.auth = su.auth;
-    cc.entropy_stream = 1; sc.entropy_stream = 2; cc.client_auth = sc.client_auth = cauth; sc.cert_cb = cb_strict;
+    // TLS 1.3 sessions resumed from a ticket that allows early data: both sides are in their "early data" states while the
+    // handshake is still running (the encode gate has a separate branch for that)
+    bool early = ver == TLS13 && t.chance(1, 3);
+    sslSessionId_t *sid = nullptr; struct SG { sslSessionId_t *&s; ~SG() { if (s) matrixSslDeleteSessionId(s); } } sg{ sid };
+    auto mkcfg = [&](Config &cc, Config &sc) { cc.client = true; sc.client = false; cc.versions = sc.versions = { ver }; cc.suites = { su.id }; cc.auth = sc.auth = su.auth;
+        cc.entropy_stream = 1; sc.entropy_stream = 2; cc.client_auth = sc.client_auth = cauth; sc.cert_cb = cb_strict; if (early) { cc.sid = sid; sc.max_early_data = 16384; } };
+    if (early) { if (matrixSslNewSessionId(&sid, NULL) < 0) throw Discard{}; Pair p0; Config c0, s0; mkcfg(c0, s0); if (p0.s.open(s0) < 0 || p0.c.open(c0) < 0 || !p0.run(60)) throw Discard{}; p0.run(10); }
+    Pair p; Config cc, sc; mkcfg(cc, sc);
     if (p.s.open(sc) < 0 || p.c.open(cc) < 0) throw Discard{};
+    if (early) { c.count("early-data-capable-session"); p.c.sel(); if (matrixSslGetMaxEarlyData(p.c.ssl) > 0 && t.coin()) { p.c.send(amsg(3, 40), 1); c.count("client-sent-early-data"); } }
     Endpoint &V = vclient ? p.c : p.s, &P = vclient ? p.s : p.c;
     Mon mon; mon.V = &V; mon.desc = desc;
     const size_t HDR = dt ? 13 : 5;
